@@ -455,6 +455,7 @@ func vfC12Run(cs vfC12Case, c *vlib.Ctx) *vlib.Failure {
 		}
 		w := e2.w[0]
 		sig := cs.Target.K + ":" + f.Kind
+		retried := false // the target was called again without fault after a reported error, and reported success
 		if !out.crashed {
 			// the process continued: the running instance must show the prior state after a reported error, the
 			// complete effect after a reported success
@@ -478,6 +479,25 @@ func vfC12Run(cs vfC12Case, c *vlib.Ctx) *vlib.Failure {
 							return vlib.Failf("running-instance-not-prior-state:"+sig, "%s: the call returned %q, yet the running wallet unlocks with the passphrase that never came into force", where, out.err)
 						}
 						w.kmc.Lock()
+					}
+				}
+				// the caller retries after the storage error went away: a retry that reports success must have the
+				// complete effect, on the running instance and (below) after the restart
+				if m0.Unlocked && len(m0.Order) > 0 {
+					if err := w.kmc.Unlock([]byte(m0.PrivPass)); err != nil {
+						fdb.inner.Close()
+						return vlib.Failf("running-instance-not-prior-state:"+sig, "%s: cannot unlock again with the prior passphrase: %v", where, err)
+					}
+				}
+				fdb.arm(nil)
+				if rerr := e2.raw(w, &cs.Target); rerr != nil {
+					c.Label("retry-after-error:refused")
+				} else {
+					c.Label("retry-after-error:ok")
+					retried = true
+					if ff := eq(w, m1, m1.Unlocked, where); ff != nil {
+						fdb.inner.Close()
+						return vlib.Failf("success-without-effect:"+sig+":retry", "%s: the call returned %q, the retry without fault reported success but the running wallet does not show the complete effect: %s", where, out.err, ff.Msg)
 					}
 				}
 			} else {
@@ -528,6 +548,10 @@ func vfC12Run(cs vfC12Case, c *vlib.Ctx) *vlib.Failure {
 		}
 		inner.Close()
 		switch {
+		case retried:
+			if f1 != nil {
+				return vlib.Failf("acknowledged-effect-lost:"+sig+":retry", "%s: the call returned %q, the retry without fault reported success, but after restart the effect is not there: %s", where, out.err, f1.Msg)
+			}
 		case out.crashed || out.err != nil:
 			if f0 != nil && f1 != nil {
 				return vlib.Failf("partial-effect-after-restart:"+sig, "%s: after restart the wallet equals neither the state before (%s) nor the state after (%s)", where, f0.Msg, f1.Msg)
